@@ -209,7 +209,9 @@ Proof.
   set (t := a - 2 ^ (L - 1)).
   set (j := W P - MB P - 1).
   assert (Ht : 0 <= t < 2 ^ (L - 1)).
-  { unfold t. replace L with (Z.succ (L - 1)) in Hhi at 2 by lia. rewrite Z.pow_succ_r in Hhi by lia. lia. }
+  { unfold t. assert (2 ^ L = 2 * 2 ^ (L - 1)).
+    { replace L with (Z.succ (L - 1)) at 1 by lia. rewrite Z.pow_succ_r by lia. reflexivity. }
+    lia. }
   assert (Hman : (if a =? 1 then 0 else (a * 2 ^ (W P - L + 1)) mod 2 ^ W P) = t * 2 ^ (j + 1 - k)).
   { replace (j + 1 - k) with (W P - L + 1) by (unfold j, k; lia).
     destruct (Z.eqb_spec a 1) as [E|E].
